@@ -19,8 +19,8 @@ mod verif {
     fn recv(k: u8) -> Primitive { match k { 0 => Primitive::Int(kani::any()), 1 => Primitive::BigInt(kani::any()), 2 => Primitive::Float(kani::any()), _ => Primitive::Byte(kani::any()) } }
     fn one(p: Primitive) -> Vec<Primitive> { let mut v = Vec::new(); v.push(p); v }
     fn val(r: Result<(Option<Primitive>, Option<Bridge>)>) -> Option<Primitive> { match r { Ok((Some(p), _)) => Some(p), _ => None } }
-    // the integer a float denotes after truncation toward zero, when it is finite and |x| < 2^127
-    fn trunc_i128(x: f64) -> Option<i128> { if x.is_nan() || x.is_infinite() || x >= 1.7014118346046923e38 || x <= -1.7014118346046923e38 { None } else { Some(x as i128) } }
+    // the integer a float denotes after truncation toward zero, when it is finite and -2^127 <= x < 2^127
+    fn trunc_i128(x: f64) -> Option<i128> { if x.is_nan() || x.is_infinite() || x >= 1.7014118346046923e38 || x < -1.7014118346046923e38 { None } else { Some(x as i128) } }
     fn same_f64(a: f64, b: f64) -> bool { a.to_bits() == b.to_bits() || (a.is_nan() && b.is_nan()) }
 
     // to_int / to_bigint / to_byte : value-preserving (float: truncation toward zero) or failure
